@@ -327,7 +327,7 @@ func (b *builder) phrase(min, max int) string {
 
 var hostileStrings = []string{
 	`say "hi"`, `back\slash`, "line1\nline2", "tab\there", `k":  v`, `": `, ` lead`, `trail `, `ünï©ode ✓`,
-	`{"a": [1,2]}`, `[x]`, `a,b`, `~tag`, `#notcomment`, `100%`, `a  b`, `":  "`, `\"`, `'single'`,
+	`{"a": [1,2]}`, `[x]`, `a,b`, `a, b, c`, `C:\var\log\`, `ends with backslash\`, `, `, `\\`, `\u00e9`, `%s %d`, `$1`, `~tag`, `#notcomment`, `100%`, `a  b`, `":  "`, `\"`, `'single'`,
 }
 
 var hostileNameBits = []string{`":  b`, `\\`, `"q`, ` sp`, `ü`, `": v`, `:c`, `[x]`, `{y}`, `,`, `#`, `'`}
